@@ -174,6 +174,27 @@ class Case:
         return '(%s %s)' % (self.id, self.body())
 
 
+last_impl_results = []
+
+
+def values_of(dumps):
+    """dumps: dict id -> driver result text ('ok DUMP' | 'err ..'); returns dict id -> canonical value text
+    (computed by the extracted to_list), 'err' for errors, None when not available"""
+    lines, out = [], {}
+    for k, r in dumps.items():
+        if r.startswith('ok '):
+            lines.append('(%s val %s)' % (k, r[3:]))
+        elif r.startswith('err'):
+            out[k] = 'err'
+        else:
+            out[k] = None
+    if lines:
+        res = run_model(lines)
+        for k, v in res.items():
+            out[k] = v[len('value '):] if v.startswith('value ') else None
+    return out
+
+
 def evaluate(cases, san=False, drv='awkdrv'):
     """run implementation and model on cases; returns list of (case, impl_result, verdict_text)"""
     lines = [c.line() for c in cases]
@@ -189,6 +210,9 @@ def evaluate(cases, san=False, drv='awkdrv'):
         mlines.append('(%s %s %s)' % (c.id, c.body(), isx))
     verd = run_model(mlines) if mlines else {}
     out = []
+    del last_impl_results[:]
+    for c in cases:
+        last_impl_results.append((c, res.get(c.id, 'crash missing')))
     for c in cases:
         r = res.get(c.id, 'crash missing')
         v = verd.get(c.id)
